@@ -22,6 +22,7 @@ META = {
         "angular data through the N-d interpolator are unit-vector averages accumulated in complex64: tolerance 1e-3 deg + 2e-5/|resultant| deg; the result must also lie on the shorter arc within that tolerance",
         "interpolate_periodic (tracks, data frames): theta0 + t*wrap(theta1-theta0) exactly linear, compared modulo 360 at 1e-9 deg",
         "jumps of exactly 180 degrees are excluded (both arcs are equally short)",
+        "direction results must lie in the half-open [0,360): exactly 360.0 is a violation (integer-valued series with targets on nodes and at midpoints are generated so that results land exactly on the seam)",
     ],
 }
 
@@ -53,7 +54,8 @@ def periodic_grid(draw, min_n=4, max_n=72):
     if uniform:
         gaps = [360.0 / n] * (n - 1)
     else:
-        w = draw(st.lists(fl(0.3, 1.0), min_size=n, max_size=n))
+        # every cyclic gap (incl. the wrap gap) stays below 164 degrees: 360/(1+3*0.4) for n=4
+        w = draw(st.lists(fl(0.4, 1.0), min_size=n, max_size=n))
         tot = sum(w)
         gaps = [360.0 * x / tot for x in w][: n - 1]
     xs = [start]
@@ -142,11 +144,12 @@ JUMPS = [10.0, 90.0, 170.0, 179.0, 179.9, 180.1, 181.0, 190.0, 270.0, 350.0]
 @st.composite
 def angle_series(draw, n):
     """Angles whose successive differences cross the seams in both senses."""
-    base = draw(st.sampled_from([0.0, 355.0, 5.0, 180.0, 175.0, 185.0, -175.0, 90.0]))
+    base = draw(st.sampled_from([0.0, 355.0, 5.0, 180.0, 175.0, 185.0, -175.0, 90.0, 350.0, 10.0, 360.0]))
+    exact = draw(st.integers(0, 2)) == 0        # integer-valued series: results can land exactly on the seam
     out = [base]
     for _ in range(n - 1):
-        j = draw(st.sampled_from(JUMPS)) * draw(st.sampled_from([1.0, -1.0]))
-        out.append(out[-1] + j + draw(fl(-0.01, 0.01)))
+        j = draw(st.sampled_from(JUMPS + ([20.0, 10.0, 5.0] if exact else []))) * draw(st.sampled_from([1.0, -1.0]))
+        out.append(out[-1] + j + (0.0 if exact else draw(fl(-0.01, 0.01))))
     return out
 
 
@@ -161,7 +164,7 @@ def angular_case(draw):
     rep = draw(st.sampled_from(["0_360", "pm180"]))
     ang = draw(angle_series(n))
     ang2 = draw(angle_series(n))
-    fr = draw(st.lists(fl(0.0, 1.0), min_size=1, max_size=6))
+    fr = draw(st.lists(st.one_of(fl(0.0, 1.0), st.sampled_from([0.0, 0.5, 1.0, 0.25, 0.75])), min_size=1, max_size=6))
     seg = draw(st.lists(st.integers(0, n - 2), min_size=len(fr), max_size=len(fr)))
     return {"xp": xp, "var": var, "rep": rep, "angles": ang, "angles2": ang2, "frac": fr, "seg": seg,
             "two_d": draw(st.booleans())}
@@ -212,7 +215,7 @@ def run_angular(c):
             require(-tol <= off * s <= abs(d) + tol, "angular_result_on_shorter_arc",
                     f"th0={th0} th1={th1} got={g} offset={off} arc={d}")
             if "direction" in c["var"].lower():
-                require(0.0 <= g < 360.0 + 1e-9, "direction_variable_in_0_360", f"got={g!r}")
+                require(0.0 <= g < 360.0, "direction_variable_in_0_360", f"got={g!r} (th0={th0!r} th1={th1!r} t={t})")
             lo, hi = sorted((th0 % 360.0, th1 % 360.0))
             if (hi - lo) > 180.0 and 0 < t < 1:
                 seam = True
@@ -248,6 +251,8 @@ def periodic_fn_case(draw):
                 tg.append(xp[s])
             elif kind == "end":
                 tg.append(xp[-1])
+            elif draw(st.integers(0, 3)) == 0:
+                tg.append((xp[s] + xp[s + 1]) // 2)
             else:
                 tg.append(draw(st.integers(xp[s], xp[s + 1])))
     ang = draw(angle_series(n))
@@ -323,8 +328,8 @@ def run_periodic_fn(c):
         require(abs(float(wrap180(g - ref))) <= 1e-7, "angle_linear_along_shorter_arc",
                 f"api={api} th0={ang[i0]!r} th1={ang[i1]!r} t={t} got={g!r} ref={ref % 360!r}")
         if rng_ is not None:
-            require(rng_[0] - 1e-9 <= g <= rng_[1] + 1e-9 and g < rng_[1] + 1e-9, "angle_in_declared_range",
-                    f"api={api} got={g!r} range={rng_}")
+            require(rng_[0] <= g < rng_[1], "angle_in_declared_range",
+                    f"api={api} got={g!r} half-open range={rng_} (th0={ang[i0]!r} th1={ang[i1]!r} t={t})")
         if i0 != i1 and 0 < t < 1 and abs(ang[i0] - ang[i1]) > 180:
             seam = True
         # non-angular columns: plain linear
@@ -407,7 +412,7 @@ def run_points(c):
     require((np.abs(g2 - got) <= 1e-8).all(), "targets_360_apart_give_equal_results", f"{g2} vs {got}")
     if c["angular"]:
         ga = np.asarray(out["wave_direction"].values, dtype=float)
-        require((np.isfinite(ga) & (ga >= 0) & (ga < 360 + 1e-9)).all(), "direction_variable_in_0_360", f"{ga}")
+        require((np.isfinite(ga) & (ga >= 0) & (ga < 360)).all(), "direction_variable_in_0_360", f"{ga}")
         g2a = np.asarray(out2["wave_direction"].values, dtype=float)
         require((np.abs(wrap180(g2a - ga)) <= 2e-3).all(), "targets_360_apart_give_equal_results", "angular")
     return {"nontrivial": wrap_hit, "classes": ["points", "angular_var" if c["angular"] else "scalar_var"]}
